@@ -93,7 +93,9 @@ Inductive pc :=
 | A_ret
 (* synchronous calls, before the push *)
 | S_aaw                        (* _dispatch_async_and_wait_recurse_one: load(dq_state, relaxed) *)
-| S_fload (k : kind)           (* _dispatch_queue_try_acquire_barrier_sync: rmw loop, initial load *)
+| S_ftail (k : kind)           (* _dispatch_queue_try_acquire_barrier_sync (inline_internal.h:1355): plain read of dq_items_tail;
+                                  a non-empty list refuses the fast path *)
+| S_fload (k : kind)           (* ... _dispatch_queue_try_acquire_barrier_sync_and_suspend: rmw loop, initial load *)
 | S_fbody (k : kind) (old : Z)
 | S_wprep (k : kind)           (* __DISPATCH_WAIT_FOR_QUEUE__: _dispatch_wait_prepare (rmw loop that gives up on a non-wlh queue) *)
 | S_xchg (k : kind)            (* _dispatch_queue_push_item *)
@@ -178,7 +180,7 @@ Definition tstep (self : Z) (p : pc) (e : event) : option (pc * list act) :=
   | Idle =>
       if ek e =? DVU_CALL then
         if eobj e =? 4 then ret A_xchg [ACall false]
-        else if (eobj e =? 1) || (eobj e =? 2) then ret (S_fload KS) [ACall true]
+        else if (eobj e =? 1) || (eobj e =? 2) then ret (S_ftail KS) [ACall true]
         else if eobj e =? 3 then ret S_aaw [ACall true]
         else None
       else if is_q e DV_LOAD MO_RELAXED OFF_Q then ret (W_lbody None (ea e)) [AWorker; ALoadQ]
@@ -202,7 +204,9 @@ Definition tstep (self : Z) (p : pc) (e : event) : option (pc * list act) :=
   | A_root => if is_tau e 0 then ret A_ret [ARootPush] else None
   | A_ret => if ek e =? DVU_RET then ret Idle [ARetA] else None
   (* ---- synchronous calls ---- *)
-  | S_aaw => if is_q e DV_LOAD MO_RELAXED OFF_Q then ret (S_fload KA) [ALoadQ] else None
+  | S_aaw => if is_q e DV_LOAD MO_RELAXED OFF_Q then ret (S_ftail KA) [ALoadQ] else None
+  | S_ftail k =>
+      if is_tau e 1 then ret (S_wprep k) [ATail 1] else if is_tau e 0 then ret (S_fload k) [ATail 0] else None
   | S_fload k => if is_q e DV_LOAD MO_RELAXED OFF_Q then ret (after_fload self k (ea e)) [ALoadQ] else None
   | S_fbody k old =>
       match b_fast self old with
@@ -346,6 +350,16 @@ Definition tstep (self : Z) (p : pc) (e : event) : option (pc * list act) :=
   | W_xor owned => if is_q e DV_XOR MO_ACQUIRE OFF_Q && (eb e =? DIRTY) then ret (W_tail owned) [AXorQ] else None
   end.
 
+(* the fast path as it was before the tail test was added (libdispatch up to 43b9c73^): the compare-exchange is attempted
+   from the idle word alone.  Only used to replay the defect (SyncOrder_example.v): no theorem is stated about it. *)
+Definition tstep_old (self : Z) (p : pc) (e : event) : option (pc * list act) :=
+  match p with
+  | Idle =>
+      if (ek e =? DVU_CALL) && ((eobj e =? 1) || (eobj e =? 2)) then ret (S_fload KS) [ACall true] else tstep self p e
+  | S_aaw => if is_q e DV_LOAD MO_RELAXED OFF_Q then ret (S_fload KA) [ALoadQ] else None
+  | _ => tstep self p e
+  end.
+
 (* atomic sites of the leaf functions the automaton walks through, in program order: must equal what src2v reads from
    the source (lemmas sites_* in SyncWait_proofs.v) *)
 Definition mk_site (k : akind) (f : nat) (o : morder) : site := {| s_kind := k; s_field := f; s_order := o |}.
@@ -358,6 +372,7 @@ Definition model_sites_push_item : list site :=
 Definition model_sites_pop_head : list site :=
   [mk_site KLoad 10 Acquire; mk_site KStore 1 Relaxed; mk_site KCas 18 Release; mk_site KLoad 10 Acquire;
    mk_site KStore 1 Relaxed].
+Definition model_sites_fast_path : list site := [mk_site KLoad 0 Relaxed; mk_site KCasWeak 0 Acquire].
 Definition model_sites_class_barrier_complete : list site :=
   [mk_site KLoad 0 Relaxed; mk_site KXor 0 Acquire; mk_site KCasWeak 0 Release].
 
@@ -573,6 +588,11 @@ Fixpoint apply_acts (l : list act) (s : gst) (t : Z) (e : event) : option gst :=
   | a :: l' => match apply_act a s t e with Some s1 => apply_acts l' s1 t e | None => None end
   end.
 
+Definition gstep_with (ts : Z -> pc -> event -> option (pc * list act)) (s : gst) (t : Z) (e : event) : option gst :=
+  match ts t (pcs s t) e with
+  | Some (p', acts) => match apply_acts acts s t e with Some s1 => Some (set_pc s1 t p') | None => None end
+  | None => None
+  end.
 Definition gstep (s : gst) (t : Z) (e : event) : option gst :=
   match tstep t (pcs s t) e with
   | Some (p', acts) => match apply_acts acts s t e with Some s1 => Some (set_pc s1 t p') | None => None end
@@ -615,7 +635,7 @@ Definition pc_code (p : pc) : list Z :=
   | G_wake c w => 44 :: w :: ccode c
   | W_lbody fl o => 45 :: o :: (match fl with Some f => [1; f] | None => [0] end) | W_tail o => [46; o] | W_head o => [47; o]
   | W_state o => [48; o] | W_pop o => [49; o] | W_dec o n => [50; o; n] | W_incall o n w => [51; o; n; w]
-  | W_uload o => [52; o] | W_ubody o v => [53; o; v] | W_xor o => [54; o]
+  | W_uload o => [52; o] | W_ubody o v => [53; o; v] | W_xor o => [54; o] | S_ftail k => [55; kcode k]
   end.
 Fixpoint zlist_eqb (a b : list Z) : bool :=
   match a, b with [] , [] => true | x :: a', y :: b' => (x =? y) && zlist_eqb a' b' | _, _ => false end.
